@@ -14,7 +14,7 @@ RULE = ("valid programs with nested blocks (if arm, for body, scan arm, depth 0-
         "(strict: the failing statement; lazy: it or an enclosing one; conflicts: both statements); the pretty rendering must show "
         "the cited lines; non-trivial = the injected fault was reached")
 
-FAULTS = ["type", "unknown-fn", "conflict", "dup-scoped", "undef-edge", "type-attr-value", "edge-conflict-fanout", "edge-conflict"]
+FAULTS = ["type", "unknown-fn", "conflict", "dup-scoped", "undef-edge", "type-attr-value", "edge-conflict-fanout", "edge-conflict", "bad-scope", "bad-scope-read"]
 # faults that need several matches / stanzas (built as whole files)
 FILE_FAULTS = ["self-conflict-shared-node", "self-dup-scoped-shared", "conflict-across-stanzas"]
 
@@ -36,6 +36,10 @@ def fault_stmts(kind, cap):
         return [A.edge(A.var("n"), A.var("n")), A.attre(A.var("n"), A.var("n"), A.attr("ek", A.integer(1))), A.attre(A.var("n"), A.var("n"), A.attr("ek", A.integer(2)))]
     if kind == "undef-edge":
         return [A.attre(A.var("n"), A.var("n"), A.attr("w", A.integer(1)))]
+    if kind == "bad-scope":          # a scoped variable on something that is not a syntax node, never read
+        return [A.let(A.svar(A.var("n"), "onnode"), A.integer(1))]
+    if kind == "bad-scope-read":     # the same, read by a later statement
+        return [A.let(A.svar(A.var("n"), "onnode"), A.integer(1)), A.node(A.var("rd")), A.attrn(A.var("rd"), A.attr("v", A.svar(A.var("n"), "onnode")))]
     return [A.attrn(A.var("n"), A.attr("tv", A.call("plus", A.string("x"), A.integer(1))))]
 
 
@@ -196,6 +200,12 @@ def run(tier):
                     line = dsl_lines[row] if row < len(dsl_lines) else ""
                     if line.strip() and line.rstrip() not in pretty:
                         problems.append("pretty rendering does not show DSL line %d" % (row + 1))
+                # every statement context is rendered completely: statement, stanza and matched node, each with its position
+                for what, path, pos in (("statement", "prog.tsg", st["sl"]), ("stanza", "prog.tsg", st["st"]), ("matched node", "src.py", st["np"])):
+                    if "%s:%d:%d:" % (path, pos[0] + 1, pos[1] + 1) not in pretty:
+                        problems.append("pretty rendering does not cite the %s at %s:%d:%d" % (what, path, pos[0] + 1, pos[1] + 1))
+            if pretty.count("matching (") != len(ctx["stmts"]) or pretty.count("in stanza") != len(ctx["stmts"]):
+                problems.append("pretty rendering shows %d matched nodes / %d stanzas for %d statement contexts" % (pretty.count("matching ("), pretty.count("in stanza"), len(ctx["stmts"])))
         if problems:
             payload["detail"] = "; ".join(problems[:4])
             V.violation(case["id"] + "-ctx", payload, {"observed": "context", "fault": case["fault"]})
